@@ -5,11 +5,17 @@ package main
 
 import (
 	"fmt"
+	"go/ast"
+	"go/parser"
+	"go/printer"
+	"go/token"
 	"os"
 	"path/filepath"
 	"regexp"
 	"strconv"
 	"strings"
+
+	"golang.org/x/tools/go/ast/astutil"
 )
 
 type Clause struct {
@@ -43,6 +49,7 @@ type Item struct {
 	Loops    []LoopSpec
 	Ghosts   []GhostStmt
 	CalleeOf bool
+	Logical  bool // the contract file says `logical`: && and || of its specifications are lowered to verifspec.And / Or
 }
 
 type GhostStmt struct {
@@ -66,10 +73,15 @@ type ContractFile struct {
 	DeclsBad string   // set when a ghost block does not compile: the file's items become stale
 	declLn  [][2]int
 	Items   []*Item
+	Logical bool
 }
 
 var reFuncHdr = regexp.MustCompile(`^func\s+(?:\(\s*(\*?)\s*([A-Za-z_][A-Za-z0-9_]*)\s*\)\s*\.\s*)?([A-Za-z_][A-Za-z0-9_]*)\s*\(([^)]*)\)\s*(.*)$`)
+var reIfaceHdr = regexp.MustCompile(`^iface\s+([A-Za-z_][A-Za-z0-9_]*)\s*\.\s*([A-Za-z_][A-Za-z0-9_]*)\s*\(([^)]*)\)\s*(.*)$`)
 var reLemmaHdr = regexp.MustCompile(`^lemma\s+([A-Za-z_][A-Za-z0-9_{}+\-]*)\s*(.*)$`)
+
+// a schema loop opens with "<<v=" (a Go shift "<<" is left alone)
+var reLoopOpen = regexp.MustCompile(`<<[A-Za-z]\s*=[^|<>]*\.\.`)
 
 // expandSchema expands <<i=lo..hi|sep|body>> and {N}, {N-1}, {N+1}.
 func expandSchema(s string, n int) (string, error) {
@@ -84,7 +96,10 @@ func expandSchema(s string, n int) (string, error) {
 	expand = func(s string, env map[string]int) (string, error) {
 		var out strings.Builder
 		for {
-			i := strings.Index(s, "<<")
+			i := -1
+			if loc := reLoopOpen.FindStringIndex(s); loc != nil {
+				i = loc[0]
+			}
 			if i < 0 {
 				out.WriteString(s)
 				break
@@ -94,7 +109,7 @@ func expandSchema(s string, n int) (string, error) {
 			depth := 0
 			j := i
 			for ; j < len(s)-1; j++ {
-				if s[j] == '<' && s[j+1] == '<' {
+				if s[j] == '<' && s[j+1] == '<' && reLoopOpen.MatchString(s[j:]) && reLoopOpen.FindStringIndex(s[j:])[0] == 0 {
 					depth++
 					j++
 				} else if s[j] == '>' && s[j+1] == '>' {
@@ -294,7 +309,8 @@ func ParseContractFile(repo, rel string) (*ContractFile, error) {
 				for _, kv := range f[2:] {
 					p := strings.SplitN(kv, "=", 2)
 					if len(p) == 2 {
-						text = strings.ReplaceAll(text, "@"+p[0]+"@", p[1])
+						// "·" stands for a space inside a value
+						text = strings.ReplaceAll(text, "@"+p[0]+"@", strings.ReplaceAll(p[1], "·", " "))
 					}
 				}
 				for _, il := range strings.Split(text, "\n") {
@@ -339,6 +355,10 @@ func ParseContractFile(repo, rel string) (*ContractFile, error) {
 			continue
 		}
 		switch {
+		case t == "logical":
+			// file directive: && and || of every specification in this file are logical connectives
+			cf.Logical = true
+			cur = nil
 		case strings.HasPrefix(t, "import "):
 			cf.Imports = append(cf.Imports, strings.TrimSpace(strings.TrimPrefix(t, "import ")))
 			cur = nil
@@ -357,7 +377,7 @@ func ParseContractFile(repo, rel string) (*ContractFile, error) {
 				schemaHi, _ = strconv.Atoi(strings.TrimSpace(rg[1]))
 			}
 			cur = nil
-		case strings.HasPrefix(t, "func ") || strings.HasPrefix(t, "lemma ") || strings.HasPrefix(t, "ghost"):
+		case strings.HasPrefix(t, "func ") || strings.HasPrefix(t, "lemma ") || strings.HasPrefix(t, "ghost") || strings.HasPrefix(t, "iface "):
 			cur = &block{schemaLo: schemaLo, schemaHi: schemaHi}
 			cur.lines = append(cur.lines, rl)
 			blocks = append(blocks, cur)
@@ -377,7 +397,7 @@ func ParseContractFile(repo, rel string) (*ContractFile, error) {
 			ls := make([]rawLine, len(b.lines))
 			for i, rl := range b.lines {
 				ls[i] = rl
-				if n >= 0 {
+				if n >= 0 || reLoopOpen.MatchString(rl.text) {
 					t, err := expandSchema(rl.text, n)
 					if err != nil {
 						return nil, fmt.Errorf("%s:%d: %v", rel, rl.line, err)
@@ -400,6 +420,22 @@ func ParseContractFile(repo, rel string) (*ContractFile, error) {
 				it.Kind = "lemma"
 				it.Name = m[1]
 				it.Sig = strings.TrimSpace(m[2])
+			} else if m := reIfaceHdr.FindStringSubmatch(first); m != nil {
+				// iface T.m(recv, args…) result : contract of an interface method, assumed at calls on unknown implementations
+				it.Kind = "iface"
+				it.Recv = m[1]
+				it.Name = m[2]
+				for _, p := range strings.Split(m[3], ",") {
+					if p = strings.TrimSpace(p); p != "" {
+						it.Names = append(it.Names, p)
+					}
+				}
+				res := strings.Trim(strings.TrimSpace(m[4]), "()")
+				for _, p := range strings.Split(res, ",") {
+					if p = strings.TrimSpace(p); p != "" {
+						it.Results = append(it.Results, p)
+					}
+				}
 			} else if m := reFuncHdr.FindStringSubmatch(first); m != nil {
 				it.Kind = "func"
 				it.PtrRecv = m[1] == "*"
@@ -510,6 +546,7 @@ func ParseContractFile(repo, rel string) (*ContractFile, error) {
 					it.Clauses[len(it.Clauses)-1].Expr += " " + t
 				}
 			}
+			it.Logical = cf.Logical
 			cf.Items = append(cf.Items, it)
 		}
 	}
@@ -572,10 +609,10 @@ func desugar(s string) string {
 			}
 			inner := s[i+1 : j]
 			// EqT(a, b) sugar
-			isEqT := ch == '(' && (endsWithWord(out.String(), "EqT") || endsWithWord(out.String(), "EqTP") || endsWithWord(out.String(), "Panics") || endsWithWord(out.String(), "Old") || endsWithWord(out.String(), "AtEntry") || strings.HasSuffix(out.String(), "verifspec.AtEntry") || endsWithWord(out.String(), "Returns") || strings.HasSuffix(out.String(), "verifspec.Old") ||
+			isEqT := ch == '(' && (endsWithWord(out.String(), "EqT") || endsWithWord(out.String(), "EqTP") || endsWithWord(out.String(), "Panics") || endsWithWord(out.String(), "Old") || endsWithWord(out.String(), "OldBool") || endsWithWord(out.String(), "OldInt") || endsWithWord(out.String(), "AtEntry") || strings.HasSuffix(out.String(), "verifspec.AtEntry") || endsWithWord(out.String(), "Returns") || strings.HasSuffix(out.String(), "verifspec.Old") ||
 				strings.HasSuffix(out.String(), "verifspec.EqT") || strings.HasSuffix(out.String(), "verifspec.Panics"))
 			isEq := ch == '(' && endsWithWord(out.String(), "Eq") || ch == '(' && strings.HasSuffix(out.String(), "verifspec.Eq")
-			if isEq || strings.Contains(inner, "Eq(") || strings.Contains(inner, "==>") || strings.Contains(inner, "forall ") || strings.Contains(inner, "exists ") || strings.Contains(inner, "EqT") || strings.Contains(inner, "Panics(") || strings.Contains(inner, "Old(") || strings.Contains(inner, "AtEntry(") || strings.Contains(inner, "Returns(") || isEqT {
+			if isEq || strings.Contains(inner, "Eq(") || strings.Contains(inner, "==>") || strings.Contains(inner, "forall ") || strings.Contains(inner, "exists ") || strings.Contains(inner, "EqT") || strings.Contains(inner, "Panics(") || strings.Contains(inner, "Old(") || strings.Contains(inner, "OldBool(") || strings.Contains(inner, "OldInt(") || strings.Contains(inner, "AtEntry(") || strings.Contains(inner, "Returns(") || isEqT {
 				ti := strings.TrimSpace(inner)
 				if ch == '(' && (strings.HasPrefix(ti, "forall ") || strings.HasPrefix(ti, "exists ")) {
 					inner = desugar(ti)
@@ -583,7 +620,11 @@ func desugar(s string) string {
 					parts := splitTop(inner, ',', 0)
 					for k := range parts {
 						parts[k] = desugar(parts[k])
-						if isEqT {
+						if isEqT && (endsWithWord(out.String(), "OldBool") || strings.HasSuffix(out.String(), "verifspec.OldBool")) {
+							parts[k] = "func() bool { return " + parts[k] + " }"
+						} else if isEqT && (endsWithWord(out.String(), "OldInt") || strings.HasSuffix(out.String(), "verifspec.OldInt")) {
+							parts[k] = "func() int { return " + parts[k] + " }"
+						} else if isEqT {
 							parts[k] = "func() any { return verifspec.W(" + parts[k] + ") }"
 						} else if isEq {
 							parts[k] = "verifspec.W(" + parts[k] + ")"
@@ -615,7 +656,7 @@ func desugar(s string) string {
 	return qualifySpec(r)
 }
 
-var reSpecFn = regexp.MustCompile(`(^|[^A-Za-z0-9_.])(EqT|Eq|SameArray|Same|Fresh|Old|AtEntry|Calls|NoCalls|Unchanged|Panics|JSONFaithful|AtomicWrites|LastCASOld|CalledOnce|TraceLen|TraceCall|Holding|Shared|Peek|Spawned|RunSpawned|IterLen|IterPosAtEntry|IterPos)\(`)
+var reSpecFn = regexp.MustCompile(`(^|[^A-Za-z0-9_.])(EqT|Eq|SameArray|Same|Fresh|OldBool|OldInt|Old|AtEntry|Calls|NoCalls|Unchanged|Panics|JSONFaithful|AtomicWrites|LastCASOld|CalledOnce|TraceLen|TraceCall|Holding|Shared|Peek|Spawned|RunSpawned|IterLen|IterPosAtEntry|IterPos)\(`)
 
 func qualifySpec(s string) string {
 	for {
@@ -683,4 +724,53 @@ func endsWithWord(s, w string) bool {
 	}
 	c := s[i-1]
 	return !(isIdentChar(c) || c == '.')
+}
+
+// dsg: desugar a clause of an item; under the file directive `logical`, && and ||
+// become verifspec.And / verifspec.Or (second operand as a thunk).
+func dsg(it *Item, s string) string {
+	r := desugar(s)
+	if it != nil && it.Logical {
+		r = lowerBool(r)
+	}
+	return r
+}
+
+// lowerBool rewrites every a && b / a || b of a Go expression into
+// verifspec.And(a, func() bool { return b }) / verifspec.Or(…).
+func lowerBool(expr string) string {
+	e, err := parser.ParseExpr(expr)
+	if err != nil {
+		return expr
+	}
+	res := astutil.Apply(e, nil, func(c *astutil.Cursor) bool {
+		be, ok := c.Node().(*ast.BinaryExpr)
+		if !ok || (be.Op != token.LAND && be.Op != token.LOR) {
+			return true
+		}
+		name := "And"
+		if be.Op == token.LOR {
+			name = "Or"
+		}
+		thunk := &ast.FuncLit{
+			Type: &ast.FuncType{Params: &ast.FieldList{}, Results: &ast.FieldList{List: []*ast.Field{{Type: ast.NewIdent("bool")}}}},
+			Body: &ast.BlockStmt{List: []ast.Stmt{&ast.ReturnStmt{Results: []ast.Expr{be.Y}}}},
+		}
+		c.Replace(&ast.CallExpr{Fun: &ast.SelectorExpr{X: ast.NewIdent("verifspec"), Sel: ast.NewIdent(name)}, Args: []ast.Expr{be.X, thunk}})
+		return true
+	})
+	var sb strings.Builder
+	if err := printer.Fprint(&sb, token.NewFileSet(), res); err != nil {
+		return expr
+	}
+	return sb.String()
+}
+
+// lowerBoolLine: as lowerBool, on one line (for text injected into real source files).
+func lowerBoolLine(expr string) string {
+	r := strings.Join(strings.Fields(strings.ReplaceAll(lowerBool(expr), "\n", " ")), " ")
+	if _, err := parser.ParseExpr(r); err != nil {
+		return expr
+	}
+	return r
 }
